@@ -7,12 +7,17 @@ Property theorems only (helper lemmas are in `Proofs/Lemmas/Alias*.lean`).  Ever
 arbitrary type of names `α`, every alias map, every store, every value semantics `E : ValOps α V P`
 (= every dtype, span and index type), every history of operations.
 
-Finding (the model follows the code):  the shortening loop of `AliasMixin.__init__` has no exit for a map
-with a self-map or a cycle — `shorten_diverges_on_cycle`.  The full-strength statement
-    "the constructor returns for every alias map"
-is FALSE for the code as it stands (`constructor_terminates_false_at_witness`); what holds is
-`constructor_terminates_partial` (= `shorten_terminates_acyclic`), under the exact guard `Acyclic`.
-A second observation: the `k != v` filter after the loop can never remove anything (`selfmap_filter_dead`).
+The alias stage of the constructor (as repaired by ca9bf22): self-maps are dropped, the loop is bounded by the
+code's own `range(len(aliases) + 1)` and ends in `ValueError` when the range runs out.  `constructor_terminates`
+says, for EVERY alias map, what comes out: the roots when no cycle remains after dropping the self-maps,
+`ValueError` otherwise (`constructor_raises_iff_cycle`); `len + 1` passes are always enough for an acyclic map
+(`shorten_bound_suffices`: pigeonhole, and distances double with every pass).
+
+Before ca9bf22 the loop was `while True:` on the unfiltered map: its exit test ("no name is both a key and a
+value") can never become true on a map with a self-map or a cycle, so the constructor never returned for
+`{'Y': 'Y'}` or `{'A': 'B', 'B': 'A'}` (findings `self-alias-hang`, `alias-cycle-hang`, now fixed).
+The `k != v` filter *after* the loop can still never remove anything (`selfmap_filter_dead`); the one in front
+of the loop can (`prefilter_not_dead`).
 -/
 set_option linter.unusedSectionVars false
 set_option linter.unusedSimpArgs false
@@ -21,45 +26,75 @@ open Fsic.Alias
 
 variable {α : Type} [DecidableEq α]
 
-/-- No cycle (a self-map is a cycle of length one): the chain of every alias leaves the set of aliases. -/
+/-- No cycle: the chain of every alias leaves the set of aliases.  (Asked of a map without self-maps — a
+    self-map would be a cycle of length one.) -/
 def Acyclic (m : AMap α) : Prop := ∀ k, k ∈ keys m → ∃ n, follow m n k ∉ keys m
+
+/-- Some alias comes back to itself after `d ≥ 1` steps. -/
+def HasCycle (m : AMap α) : Prop := ∃ c d, c ∈ keys m ∧ 1 ≤ d ∧ follow m d c = c
 
 /-- Every alias sent to the end of its chain. -/
 def roots (m : AMap α) : AMap α := mapTo m m.length
 
+theorem not_acyclic_iff_hasCycle (m : AMap α) : ¬ Acyclic m ↔ HasCycle m := by
+  constructor
+  · intro h
+    have : ∃ k, k ∈ keys m ∧ ∀ n, follow m n k ∈ keys m := by
+      apply Classical.byContradiction
+      intro hno
+      apply h
+      intro k hk
+      apply Classical.byContradiction
+      intro hn
+      exact hno ⟨k, hk, fun n => Classical.byContradiction fun hnk => hn ⟨n, hnk⟩⟩
+    obtain ⟨k, _, hall⟩ := this
+    exact cycle_of_never_leaves hall
+  · rintro ⟨c, d, hc, hd, e⟩ hac
+    obtain ⟨n, hn⟩ := hac c hc
+    exact hn (never_leaves_of_cycle hc hd e n)
+
+/-- What `roots` holds: every alias, each pointing at the first name on its chain that is not an alias. -/
+theorem roots_spec {m : AMap α} (hac : Acyclic m) :
+    keys (roots m) = keys m ∧
+    ∀ k v, (k, v) ∈ roots m → v ∉ keys m ∧ ∀ n, follow m n k ∉ keys m → follow m n k = v := by
+  have hN : ∀ k, k ∈ keys m → follow m m.length k ∉ keys m := fun k hk => leaves_within_length (hac k hk)
+  refine ⟨keys_mapTo m _, ?_⟩
+  intro k v hkv
+  obtain ⟨p, hp, e⟩ := List.mem_map.mp hkv
+  cases e
+  have hk := mem_keys_of_mem (v := p.2) hp
+  refine ⟨hN _ hk, ?_⟩
+  intro n hn
+  have e1 := follow_stable hn m.length
+  have e2 := follow_stable (hN _ hk) n
+  rw [Nat.add_comm] at e2
+  rw [← e1, e2]
+
+example : roots [("a", "b"), ("b", "Y"), ("GDP", "Y")] = [("a", "Y"), ("b", "Y"), ("GDP", "Y")] := by decide
+example : Acyclic [("a", "b"), ("b", "Y"), ("GDP", "Y")] := by
+  intro k hk
+  refine ⟨2, ?_⟩
+  simp [keys] at hk
+  rcases hk with rfl | rfl | rfl <;> decide
+
 /-! ## 1. The shortening loop -/
 
-/-- If every chain has left the aliases after `N` steps, the loop exits after at most `N` rounds (given
-    `N - 1` rounds of fuel) with every alias sent `N` steps along. -/
-theorem shorten_exits {m : AMap α} (hwf : WF m) {N fuel : Nat} (hN : ∀ k, k ∈ keys m → follow m N k ∉ keys m)
-    (hf : N ≤ fuel + 1) : ∃ r, r ≤ N ∧ shortenLoop fuel 0 m = .exited r (mapTo m N) := by
+/-- If every chain has left the aliases after `N` steps, a loop with at least `N` passes `break`s after at
+    most `N` substitutions with every alias sent `N` steps along. -/
+theorem shorten_exits {m : AMap α} (hwf : WF m) {N passes : Nat} (hN : ∀ k, k ∈ keys m → follow m N k ∉ keys m)
+    (hf : N ≤ passes) (hpos : 1 ≤ passes) :
+    ∃ r, r ≤ N ∧ shortenLoop passes 0 m = .exited r (mapTo m N) := by
   have hN' : ¬ Stays m N := fun ⟨k, hk, hs⟩ => hN k hk hs
-  obtain ⟨r, h1, h2⟩ := shortenLoop_exits hN' fuel 0 1 (Nat.le_refl 1) hf
+  obtain ⟨f, rfl⟩ : ∃ f, passes = f + 1 := ⟨passes - 1, by omega⟩
+  obtain ⟨r, h1, h2⟩ := shortenLoop_exits hN' f 0 1 (Nat.le_refl 1) (by omega)
   rw [mapTo_one hwf] at h1
   exact ⟨r, by omega, h1⟩
 
-/-- **Acyclic maps.**  The loop exits within `|m|` rounds, every alias then points at the end of its chain
-    (a name that is not an alias), and that map is what the instance stores (the filter removes nothing). -/
-theorem shorten_terminates_acyclic {m : AMap α} (hwf : WF m) (hac : Acyclic m) {fuel : Nat}
-    (hf : m.length ≤ fuel + 1) :
-    (∃ r, r ≤ m.length ∧ shortenLoop fuel 0 m = .exited r (roots m)) ∧
-    instanceAliases fuel m = some (roots m) ∧
-    (∀ k v, (k, v) ∈ roots m → v ∉ keys m ∧ ∀ n, follow m n k ∉ keys m → follow m n k = v) := by
-  have hN : ∀ k, k ∈ keys m → follow m m.length k ∉ keys m := fun k hk => leaves_within_length (hac k hk)
-  obtain ⟨r, hr, hex⟩ := shorten_exits hwf hN hf
-  have hnc := (shortenLoop_exit_not_chained _ _ _ hex).1
-  refine ⟨⟨r, hr, hex⟩, ?_, ?_⟩
-  · simp [instanceAliases, hex, roots, dropSelf_of_not_chained hnc]
-  · intro k v hkv
-    obtain ⟨p, hp, e⟩ := List.mem_map.mp hkv
-    cases e
-    have hk := mem_keys_of_mem (v := p.2) hp
-    refine ⟨hN _ hk, ?_⟩
-    intro n hn
-    have e1 := follow_stable hn m.length
-    have e2 := follow_stable (hN _ hk) n
-    rw [Nat.add_comm] at e2
-    rw [← e1, e2]
+/-- **`len(aliases) + 1` passes always suffice for an acyclic map**: the loop `break`s, after at most `|m|`
+    substitutions, with every alias at the end of its chain. -/
+theorem shorten_bound_suffices {m : AMap α} (hwf : WF m) (hac : Acyclic m) :
+    ∃ r, r ≤ m.length ∧ shortenLoop (m.length + 1) 0 m = .exited r (roots m) :=
+  shorten_exits hwf (fun k hk => leaves_within_length (hac k hk)) (by omega) (by omega)
 
 example : Acyclic [("expenditure", "output"), ("output", "income"), ("income", "Y"), ("GDP", "Y")] := by
   intro k hk
@@ -67,102 +102,142 @@ example : Acyclic [("expenditure", "output"), ("output", "income"), ("income", "
   simp [keys] at hk
   rcases hk with rfl | rfl | rfl | rfl <;> decide
 
-example : shortenLoop 3 0 [("expenditure", "output"), ("output", "income"), ("income", "Y"), ("GDP", "Y")]
+example : shortenLoop 5 0 [("expenditure", "output"), ("output", "income"), ("income", "Y"), ("GDP", "Y")]
     = .exited 2 [("expenditure", "Y"), ("output", "Y"), ("income", "Y"), ("GDP", "Y")] := by decide
 
-/-- The number of rounds is exactly the first `j` with `2^j` ≥ the longest chain: distances double. -/
-theorem shorten_rounds {m : AMap α} (hwf : WF m) {fuel r : Nat} {m' : AMap α}
-    (h : shortenLoop fuel 0 m = .exited r m') :
+/-- The number of substitutions is exactly the first `j` with `2^j` ≥ the longest chain: distances double. -/
+theorem shorten_rounds {m : AMap α} (hwf : WF m) {passes r : Nat} {m' : AMap α}
+    (h : shortenLoop passes 0 m = .exited r m') :
     m' = mapTo m (2 ^ r) ∧ ¬ Stays m (2 ^ r) ∧ ∀ i, i < r → Stays m (2 ^ i) := by
   rw [← mapTo_one hwf] at h
-  obtain ⟨j, h1, _, h3, h4, h5⟩ := shortenLoop_rounds fuel 0 1 h
+  obtain ⟨j, h1, _, h3, h4, h5⟩ := shortenLoop_rounds passes 0 1 h
   have : r = j := by omega
   subst this
   simp only [Nat.one_mul] at h3 h4 h5
   exact ⟨h3, h4, h5⟩
 
-/-- **Self-maps and cycles.**  If the chain of some alias never leaves the aliases, the exit test fails after
-    every round: no amount of fuel ends the loop. -/
-theorem shorten_diverges_on_cycle {m : AMap α} (hwf : WF m)
-    (hcyc : ∃ k, k ∈ keys m ∧ ∀ n, follow m n k ∈ keys m) (fuel : Nat) :
-    shortenLoop fuel 0 m = .fuelOut ∧ instanceAliases fuel m = none := by
-  obtain ⟨k, hk, hall⟩ := hcyc
-  have h := shortenLoop_diverges (m := m) (fun n => ⟨k, hk, hall n⟩) fuel 0 1
+example : shortenLoop 4 0 [("a", "b"), ("b", "c"), ("c", "Y")] = .exited 2 [("a", "Y"), ("b", "Y"), ("c", "Y")] := by
+  decide
+
+/-- **Cycles.**  If the chain of some alias never leaves the aliases, the exit test fails in every pass,
+    whatever the bound: the range runs out and the `else` clause raises. -/
+theorem shorten_exhausts_on_cycle {m : AMap α} (hwf : WF m) (hcyc : HasCycle m) (passes : Nat) :
+    shortenLoop passes 0 m = .exhausted := by
+  obtain ⟨c, d, hc, hd, e⟩ := hcyc
+  have h := shortenLoop_exhausts (m := m) (fun n => ⟨c, hc, never_leaves_of_cycle hc hd e n⟩) passes 0 1
   rw [mapTo_one hwf] at h
-  exact ⟨h, by simp [instanceAliases, h]⟩
+  exact h
 
-/-- A self-map is such a cycle. -/
-theorem self_map_is_cycle {m : AMap α} (hwf : WF m) {k : α} (h : (k, k) ∈ m) :
-    ∃ k, k ∈ keys m ∧ ∀ n, follow m n k ∈ keys m :=
-  ⟨k, mem_keys_of_mem h, fun n => by rw [follow_self hwf h]; exact mem_keys_of_mem h⟩
+example : HasCycle [("A", "B"), ("B", "A")] := ⟨"A", 2, by decide, by decide, by decide⟩
+example : shortenLoop 3 0 [("A", "B"), ("B", "A")] = .exhausted := by decide
 
-example : (∃ k, k ∈ keys [("A", "B"), ("B", "A")] ∧ ∀ n, follow [("A", "B"), ("B", "A")] n k ∈ keys [("A", "B"), ("B", "A")]) := by
-  refine ⟨"A", by decide, ?_⟩
-  have h2 : ∀ n, follow [("A", "B"), ("B", "A")] (n + 2) "A" = follow [("A", "B"), ("B", "A")] n "A" := by
-    intro n; rfl
-  intro n
-  induction n using Nat.strongRecOn with
-  | _ n ih =>
-    match n with
-    | 0 => decide
-    | 1 => decide
-    | n + 2 => rw [h2]; exact ih n (by omega)
-
-/-- The loop ends iff the map is acyclic. -/
-theorem shorten_terminates_iff_acyclic {m : AMap α} (hwf : WF m) :
-    (∃ fuel r m', shortenLoop fuel 0 m = .exited r m') ↔ Acyclic m := by
+/-- The loop `break`s within its bound iff the map is acyclic. -/
+theorem shorten_breaks_iff_acyclic {m : AMap α} (hwf : WF m) :
+    (∃ r m', shortenLoop (m.length + 1) 0 m = .exited r m') ↔ Acyclic m := by
   constructor
-  · rintro ⟨fuel, r, m', h⟩ k hk
+  · rintro ⟨r, m', h⟩ k hk
     exact ⟨2 ^ r, fun hs => (shorten_rounds hwf h).2.1 ⟨k, hk, hs⟩⟩
   · intro hac
-    obtain ⟨⟨r, _, h⟩, _⟩ := shorten_terminates_acyclic hwf hac (fuel := m.length) (by omega)
-    exact ⟨_, _, _, h⟩
+    obtain ⟨r, _, h⟩ := shorten_bound_suffices hwf hac
+    exact ⟨_, _, h⟩
 
-/-- FULL-STRENGTH STATEMENT, false for the code as it stands:
-      `∀ m, WF m → ∃ fuel, instanceAliases fuel m ≠ none`   ("the constructor returns for every alias map").
-    Its negation holds at the self-map `{'Y': 'Y'}` (and at the 2-cycle below). -/
-theorem constructor_terminates_false_at_witness :
-    ¬ ∃ fuel, instanceAliases fuel [("Y", "Y")] ≠ none := by
-  rintro ⟨fuel, h⟩
-  have hwf : WF [("Y", "Y")] := by unfold WF keys; decide
-  exact h (shorten_diverges_on_cycle hwf (self_map_is_cycle hwf (k := "Y") (by decide)) fuel).2
-
-theorem constructor_terminates_false_at_cycle_witness :
-    ¬ ∃ fuel, instanceAliases fuel [("A", "B"), ("B", "A")] ≠ none := by
-  rintro ⟨fuel, h⟩
-  have hwf : WF [("A", "B"), ("B", "A")] := by unfold WF keys; decide
-  refine h (shorten_diverges_on_cycle hwf ⟨"A", by decide, ?_⟩ fuel).2
-  have h2 : ∀ n, follow [("A", "B"), ("B", "A")] (n + 2) "A" = follow [("A", "B"), ("B", "A")] n "A" := by
-    intro n; rfl
-  intro n
-  induction n using Nat.strongRecOn with
-  | _ n ih =>
-    match n with
-    | 0 => decide
-    | 1 => decide
-    | n + 2 => rw [h2]; exact ih n (by omega)
-
-/-- What does hold: the guard is exactly `Acyclic`. -/
-theorem constructor_terminates_partial {m : AMap α} (hwf : WF m) (hac : Acyclic m) :
-    instanceAliases m.length m = some (roots m) :=
-  (shorten_terminates_acyclic hwf hac (fuel := m.length) (by omega)).2.1
-
-/-- The `k != v` filter after the loop is dead code: whenever the loop exits, no item has `k == v`. -/
-theorem selfmap_filter_dead {m m' : AMap α} {fuel r : Nat} (h : shortenLoop fuel 0 m = .exited r m') :
+/-- The `k != v` filter after the loop is dead code: whenever the loop `break`s, no item has `k == v`. -/
+theorem selfmap_filter_dead {m m' : AMap α} {passes r : Nat} (h : shortenLoop passes 0 m = .exited r m') :
     dropSelf m' = m' :=
   dropSelf_of_not_chained (shortenLoop_exit_not_chained _ _ _ h).1
 
-/-- Every map an instance can hold: unique keys, no alias is a target (so `_resolve_alias` is idempotent and
-    its result is never an alias). -/
-theorem instance_aliases_shortened {m a : AMap α} {fuel : Nat} (hwf : WF m) (h : instanceAliases fuel m = some a) :
-    WF a ∧ chained a = false ∧ keys a = keys m ∧ ∀ x, resolve a (resolve a x) = resolve a x := by
-  unfold instanceAliases at h
+example : shortenLoop 3 0 [("p", "q"), ("q", "Y")] = .exited 1 [("p", "Y"), ("q", "Y")] ∧
+    dropSelf [("p", "Y"), ("q", "Y")] = [("p", "Y"), ("q", "Y")] := by decide
+
+/-- The filter in front of the loop is not: it is what makes `{'Y': 'Y'}` acceptable. -/
+theorem prefilter_not_dead : dropSelf [("Y", "Y"), ("GDP", "Y")] ≠ [("Y", "Y"), ("GDP", "Y")] ∧
+    shortenAll [("Y", "Y"), ("GDP", "Y")] = .valueError ∧
+    instanceAliases [("Y", "Y"), ("GDP", "Y")] = .returned [("GDP", "Y")] := by decide
+
+/-- The loop stage on a map without cycle: the roots; with a cycle: `ValueError`. -/
+theorem shortenAll_acyclic {m : AMap α} (hwf : WF m) (hac : Acyclic m) : shortenAll m = .returned (roots m) := by
+  obtain ⟨r, _, hex⟩ := shorten_bound_suffices hwf hac
+  have hnc := (shortenLoop_exit_not_chained _ _ _ hex).1
+  simp [shortenAll, hex, dropSelf_of_not_chained hnc]
+
+theorem shortenAll_cycle {m : AMap α} (hwf : WF m) (hcyc : HasCycle m) : shortenAll m = .valueError := by
+  simp [shortenAll, shorten_exhausts_on_cycle hwf hcyc]
+
+/-- **FULL STRENGTH — the alias stage of the constructor, for EVERY alias map** (`WF` is only "it is a dict").
+    The stage always ends (the model is total, the bound is the code's own) and its outcome is determined:
+    * no cycle left after dropping the self-maps ⇒ it returns, and `self.aliases` is `roots (dropSelf m)`: the
+      aliases that are not self-maps, each pointing at the end of its chain (`roots_spec`);
+    * otherwise ⇒ `ValueError`.
+    Chains may be followed in the declared map or in the filtered one: `follow (dropSelf m) = follow m`. -/
+theorem constructor_terminates {m : AMap α} (hwf : WF m) :
+    (Acyclic (dropSelf m) → instanceAliases m = .returned (roots (dropSelf m))) ∧
+    (¬ Acyclic (dropSelf m) → instanceAliases m = .valueError) ∧
+    (∀ n x, follow (dropSelf m) n x = follow m n x) :=
+  ⟨fun hac => shortenAll_acyclic (wf_dropSelf hwf) hac,
+   fun hn => shortenAll_cycle (wf_dropSelf hwf) ((not_acyclic_iff_hasCycle _).mp hn),
+   fun n x => follow_dropSelf hwf n x⟩
+
+/-- **`ValueError` iff a cycle remains after dropping the self-maps** (both directions). -/
+theorem constructor_raises_iff_cycle {m : AMap α} (hwf : WF m) :
+    instanceAliases m = .valueError ↔ HasCycle (dropSelf m) := by
+  constructor
+  · intro h
+    apply (not_acyclic_iff_hasCycle _).mp
+    intro hac
+    rw [(constructor_terminates hwf).1 hac] at h
+    cases h
+  · intro h
+    exact shortenAll_cycle (wf_dropSelf hwf) h
+
+/-- … and it returns iff none remains; what it returns is then fixed. -/
+theorem constructor_returns_iff_acyclic {m : AMap α} (hwf : WF m) :
+    (∃ a, instanceAliases m = .returned a) ↔ Acyclic (dropSelf m) := by
+  constructor
+  · rintro ⟨a, h⟩
+    apply Classical.byContradiction
+    intro hn
+    rw [(constructor_terminates hwf).2.1 hn] at h
+    cases h
+  · intro hac
+    exact ⟨_, (constructor_terminates hwf).1 hac⟩
+
+/-- A map of self-maps only is accepted and yields no alias at all. -/
+theorem only_self_maps_accepted {m : AMap α} (h : ∀ p, p ∈ m → p.1 = p.2) : instanceAliases m = .returned [] := by
+  have : dropSelf m = [] := by
+    apply List.filter_eq_nil_iff.mpr
+    intro p hp
+    simp [h p hp]
+  unfold instanceAliases
+  rw [this]
+  rfl
+
+-- a self-map is accepted and is no alias; a cycle raises; a chain is shortened to its root
+example : instanceAliases [("Y", "Y")] = .returned [] := by decide
+example : instanceAliases [("A", "B"), ("B", "A")] = (.valueError : Outcome String) := by decide
+example : instanceAliases [("expenditure", "output"), ("output", "income"), ("income", "Y"), ("GDP", "Y")]
+    = .returned [("expenditure", "Y"), ("output", "Y"), ("income", "Y"), ("GDP", "Y")] := by decide
+-- a self-map at the end of a chain is the root of that chain; a cycle with a tail raises
+example : instanceAliases [("p", "q"), ("q", "q")] = .returned [("p", "q")] := by decide
+example : instanceAliases [("p", "q"), ("q", "r"), ("r", "q"), ("s", "s")] = (.valueError : Outcome String) := by decide
+example : HasCycle (dropSelf [("p", "q"), ("q", "r"), ("r", "q"), ("s", "s")]) := ⟨"q", 2, by decide, by decide, by decide⟩
+example : ¬ HasCycle (dropSelf [("Y", "Y")]) := by rintro ⟨c, d, hc, _⟩; simp [dropSelf, keys] at hc
+
+/-- Every map an instance can hold: unique keys (the declared aliases that are not self-maps), no alias is a
+    target (so `_resolve_alias` is idempotent and its result is never an alias). -/
+theorem instance_aliases_shortened {m a : AMap α} (hwf : WF m) (h : instanceAliases m = .returned a) :
+    WF a ∧ chained a = false ∧ keys a = keys (dropSelf m) ∧ (∀ x, resolve a (resolve a x) = resolve a x) ∧
+    a = roots (dropSelf m) := by
+  have hac := (constructor_returns_iff_acyclic hwf).mp ⟨a, h⟩
+  have h0 := h
+  unfold instanceAliases shortenAll at h
   split at h
   · rename_i r m' hex
     have h' := shortenLoop_exit_not_chained _ _ _ hex
     rw [dropSelf_of_not_chained h'.1] at h
     cases h
-    exact ⟨by unfold WF; rw [h'.2]; exact hwf, h'.1, h'.2, resolve_idem h'.1⟩
+    refine ⟨by unfold WF; rw [h'.2]; exact wf_dropSelf hwf, h'.1, h'.2, resolve_idem h'.1, ?_⟩
+    rw [(constructor_terminates hwf).1 hac] at h0
+    cases h0; rfl
   · cases h
 
 /-! ## 2. Transparency -/
@@ -195,29 +270,33 @@ theorem alias_indistinguishable (E : ValOps α V P) {a : AMap α} (hc : chained 
   intro op _
   cases op <;> simp [Op.mapName, hfg]
 
-/-- Chains: if the class declares `x → y` (where `y` may itself be an alias), the instance resolves `x` and
-    `y` to the same variable — the end of the chain, which resolves to itself. -/
-theorem declared_alias_resolves_alike {m a : AMap α} {fuel : Nat} (hwf : WF m)
-    (h : instanceAliases fuel m = some a) {x y : α} (hxy : (x, y) ∈ m) :
-    resolve a x = resolve a y ∧ resolve a (resolve a x) = resolve a x ∧ resolve a x ∉ keys m := by
-  unfold instanceAliases at h
-  split at h
-  · rename_i r m' hex
-    have h' := shortenLoop_exit_not_chained _ _ _ hex
-    rw [dropSelf_of_not_chained h'.1] at h
-    cases h
-    obtain ⟨e, hns, _⟩ := shorten_rounds hwf hex
-    have hx : follow m (2 ^ r) x ∉ keys m := fun hs => hns ⟨x, mem_keys_of_mem hxy, hs⟩
-    refine ⟨?_, resolve_idem h'.1 x, ?_⟩
-    · rw [e, resolve_mapTo, resolve_mapTo]
+/-- Chains: if the class declares `x → y` (where `y` may itself be an alias, or `x` itself), the instance
+    resolves `x` and `y` to the same variable — the end of the chain, which resolves to itself. -/
+theorem declared_alias_resolves_alike {m a : AMap α} (hwf : WF m)
+    (h : instanceAliases m = .returned a) {x y : α} (hxy : (x, y) ∈ m) :
+    resolve a x = resolve a y ∧ resolve a (resolve a x) = resolve a x ∧ resolve a x ∉ keys (dropSelf m) := by
+  obtain ⟨_, hc, hk, hid, _⟩ := instance_aliases_shortened hwf h
+  refine ⟨?_, hid x, by rw [← hk]; exact resolve_not_key hc x⟩
+  by_cases exy : x = y
+  · rw [exy]
+  · have hxy0 : (x, y) ∈ dropSelf m := mem_dropSelf.mpr ⟨hxy, exy⟩
+    have hwf0 := wf_dropSelf hwf
+    unfold instanceAliases shortenAll at h
+    split at h
+    · rename_i r m' hex
+      have h' := shortenLoop_exit_not_chained _ _ _ hex
+      rw [dropSelf_of_not_chained h'.1] at h
+      cases h
+      obtain ⟨e, hns, _⟩ := shorten_rounds hwf0 hex
+      have hx : follow (dropSelf m) (2 ^ r) x ∉ keys (dropSelf m) := fun hs => hns ⟨x, mem_keys_of_mem hxy0, hs⟩
+      rw [e, resolve_mapTo, resolve_mapTo]
       have e1 := follow_stable hx 1
-      rw [follow, resolve_of_mem hwf hxy] at e1
+      rw [follow, resolve_of_mem hwf0 hxy0] at e1
       exact e1.symm
-    · rw [e, resolve_mapTo]; exact hx
-  · cases h
+    · cases h
 
-example : instanceAliases 3 [("expenditure", "output"), ("output", "income"), ("income", "Y"), ("GDP", "Y")]
-    = some [("expenditure", "Y"), ("output", "Y"), ("income", "Y"), ("GDP", "Y")] := by decide
+example : instanceAliases [("expenditure", "output"), ("output", "income"), ("income", "Y"), ("GDP", "Y"), ("C", "C")]
+    = .returned [("expenditure", "Y"), ("output", "Y"), ("income", "Y"), ("GDP", "Y")] := by decide
 
 /-- Constructor keywords: `Model(span, alias=v)` is `Model(span, variable=v)`. -/
 theorem ctor_transparent (a : AMap α) (strict : Bool) (names : List α) (dflt : P) (kwargs : List (α × P)) :
